@@ -197,6 +197,46 @@ class StructuredStrings(Family):
         return 'ok', '1' in s.strip('1')
 
 
+class PowerBoundaries(Family):
+    """for every digit count k = 1..300: the strings 'z'*k (58^k - 1), '2' + '1'*(k-1) (58^(k-1)), 'z'*(k-1) + 'y', and for
+    every byte count n = 1..220: ff*n, 01 00*(n-1), 00 ff*(n-1): size estimates (logarithms, fixed ratios) are exact only
+    away from these"""
+    name = 'power_boundaries'
+    nontrivial_rule = 'every case'
+
+    def shards(self, tier):
+        return [('s', lo) for lo in range(1, 301, 25)] + [('b', lo) for lo in range(1, 221, 20)]
+
+    def cases(self, shard, tier):
+        kind, lo = shard
+        if kind == 's':
+            for k in range(lo, lo + 25):
+                for v in ('z' * k, '2' + '1' * (k - 1), 'z' * (k - 1) + 'y', 'y' + 'z' * (k - 1), '1' + 'z' * (k - 1)):
+                    yield ('s', v)
+        else:
+            for n in range(lo, lo + 20):
+                for v in (b'\xff' * n, b'\x01' + b'\x00' * (n - 1), b'\x00' + b'\xff' * (n - 1), b'\xff' + b'\x00' * (n - 1), b'\x00\x01' + b'\x00' * (n - 1)):
+                    yield ('b', v)
+
+    def check(self, case):
+        B = _lib()
+        kind, v = case
+        if kind == 's':
+            want = R.decode(v)
+            try:
+                got = B.decode(v)
+            except Exception as e:  # noqa
+                raise Viol('base58.decode of a %d-character string over the alphabet raised %s' % (len(v), type(e).__name__), len(want), str(e)[:80])
+            if bytes(got) != want or B.encode(got) != v:
+                raise Viol('decode / encode(decode) of %r...(%d chars)' % (v[:12], len(v)), want[:16], bytes(got)[:16])
+        else:
+            want = R.encode(v)
+            got = B.encode(v)
+            if got != want or bytes(B.decode(got)) != v:
+                raise Viol('encode / decode(encode) of %s...(%d bytes)' % (v[:8].hex(), len(v)), want[:24], got[:24])
+        return kind, True
+
+
 def classify(B, s):
     """library outcome of CBase58Data(s) in the reference's vocabulary"""
     try:
@@ -251,6 +291,14 @@ class CheckRoundTrip(Family):
         other = B.CBase58Data.from_bytes(payload, (v + 111) % 256)
         if str(other) != R.check_encode((v + 111) % 256, payload) or str(obj) != want or str(other) != R.check_encode((v + 111) % 256, payload):
             raise Viol('text of a second object with the same payload and version %d' % ((v + 111) % 256), R.check_encode((v + 111) % 256, payload), str(other))
+        # re-versioning: an existing object used as the payload of another version
+        rev = B.CBase58Data.from_bytes(obj, (v + 7) % 256)
+        if rev.nVersion != (v + 7) % 256 or str(rev) != R.check_encode((v + 7) % 256, payload) or obj.nVersion != v or str(obj) != want:
+            raise Viol('from_bytes(<CBase58Data of version %d>, %d)' % (v, (v + 7) % 256), R.check_encode((v + 7) % 256, payload), (rev.nVersion, str(rev)))
+        for wrap in (bytearray, memoryview):
+            o2 = B.CBase58Data.from_bytes(wrap(payload), v)
+            if str(o2) != want or B.encode(wrap(bytes([v]) + payload)) != R.encode(bytes([v]) + payload):
+                raise Viol('payload given as %s' % wrap.__name__, want, str(o2))
         back = B.CBase58Data(s)
         if back.nVersion != v or bytes(back) != payload or back.to_bytes() != payload:
             raise Viol('CBase58Data(str(x)) does not return the same version and payload', (v, payload), (back.nVersion, bytes(back)))
@@ -360,4 +408,4 @@ class ShortPayloads(Family):
 
 
 def families(tier):
-    return [EncodeBytes(), DecodeStrings(), StructuredStrings(), InvalidChars(), CheckRoundTrip(), SingleFaults(), DoubleFaults() if tier == 'thorough' else None, ShortPayloads()]
+    return [EncodeBytes(), DecodeStrings(), StructuredStrings(), PowerBoundaries(), InvalidChars(), CheckRoundTrip(), SingleFaults(), DoubleFaults() if tier == 'thorough' else None, ShortPayloads()]
